@@ -193,7 +193,7 @@ pub fn run_check(args: &Args, spec: CheckSpec) -> ! {
     }
     let known = load_known(&args.verif_dir);
     let total_budget = args.budget_s.unwrap_or(match args.tier {
-        Tier::Quick => 45.0,
+        Tier::Quick => 55.0,
         Tier::Thorough => 600.0,
     });
     let scenarios: Vec<&Scenario> = spec
